@@ -12,6 +12,9 @@ Inductive ynode : Type :=
 | YSeq (l : list ynode)
 | YMap (kvs : list (ynode * ynode))             (* key nodes and value nodes, in document order *)
 | YAlias (target : ynode)                        (* *anchor: the aliased node *)
+| YAliasUp                                       (* *anchor where the anchor is on a node ENCLOSING the alias (a: &a [*a]): yaml.v3
+                                                    registers the anchor before it parses the children, so its node tree has a cycle;
+                                                    the translation (since fix 9e9f681) tracks the anchors being expanded and reports it *)
 | YEmpty.                                        (* Kind 0: an empty document *)
 
 Definition key_text (k : ynode) : string := match k with YScalar _ t => t | _ => "" end.
@@ -37,6 +40,7 @@ Fixpoint ytranslate (n : ynode) : res value :=
   match n with
   | YEmpty => Ok VNull
   | YAlias t => ytranslate t
+  | YAliasUp => Err ECircular
   | YSeq l => do l' <- (fix go (l : list ynode) : res (list value) :=
                           match l with [] => Ok [] | x :: r => do y <- ytranslate x; do r' <- go r; Ok (y :: r') end) l;
               Ok (VList l')
